@@ -1,6 +1,8 @@
 package caddyl4
 
 // C15 engine: Caddyfile and JSON configurations are equivalent, loadable and round-trip.
+// Injected into the root package (it imports every module, like /repo/integration; that directory
+// has no non-test Go file, which the overlay driver needs to find the package name).
 //
 // Corpus: the golden files of integration/caddyfile_adapt.  Generated: abstract configurations
 // drawn from the grammar documented on every UnmarshalCaddyfile (all matchers, handlers and
@@ -52,6 +54,19 @@ func vLineIf(k string, args []string) []*vSeg {
 		return nil
 	}
 	return []*vSeg{vLine(append([]string{k}, args...)...)}
+}
+// an appending option: in split mode its arguments may be spread over two lines (the documented
+// grammar allows repeating such options; the values accumulate)
+var vSplit *vRng
+var vSplits int
+
+func vLineMulti(k string, args []string, unit int) []*vSeg {
+	if vSplit != nil && len(args) >= 2*unit && vSplit.Intn(100) < 60 {
+		cut := unit * (1 + vSplit.Intn(len(args)/unit-1))
+		vSplits++
+		return []*vSeg{vLine(append([]string{k}, args[:cut]...)...), vLine(append([]string{k}, args[cut:]...)...)}
+	}
+	return vLineIf(k, args)
 }
 func vLineOpt(k string, v *string) []*vSeg {
 	if v == nil {
@@ -171,6 +186,7 @@ func vDurNs(d *vDur) int64 {
 
 type vGen struct {
 	r    *vRng
+	big  bool // this configuration may use durations above 2^53 ns (global form only: Caddy's own JSONModuleObject, used for listener wrappers, goes through float64)
 	full bool // this configuration may use the modules outside the Coq model (tls/http/quic matchers, tls handler, decimal rates)
 }
 
@@ -182,6 +198,9 @@ func (g *vGen) dur() vDur {
 	d := vDur{ns[g.r.Intn(len(ns))], g.pick(units)}
 	if g.chance(4) {
 		d.n = 0
+	}
+	if g.big && g.chance(35) {
+		d = vDur{[]uint64{9007199254740993, 9007199254740995, 4611686018427387905, 9223372036854774785}[g.r.Intn(4)], "ns"}
 	}
 	return d
 }
@@ -380,6 +399,34 @@ func vCanon(v any, sb *strings.Builder) {
 		sb.WriteString(fmt.Sprintf("?%T", v))
 	}
 }
+// every integer replaced by its float64 rounding (to recognise a float64 round trip)
+func vFloatRound(v any) any {
+	switch x := v.(type) {
+	case int64:
+		return json.Number(strconv.FormatFloat(float64(x), 'f', -1, 64))
+	case json.Number:
+		if n, err := strconv.ParseInt(string(x), 10, 64); err == nil {
+			return json.Number(strconv.FormatFloat(float64(n), 'f', -1, 64))
+		}
+		if f, err := strconv.ParseFloat(string(x), 64); err == nil {
+			return json.Number(strconv.FormatFloat(f, 'f', -1, 64))
+		}
+		return x
+	case []any:
+		r := make([]any, len(x))
+		for i, e := range x {
+			r[i] = vFloatRound(e)
+		}
+		return r
+	case map[string]any:
+		r := map[string]any{}
+		for k, e := range x {
+			r[k] = vFloatRound(e)
+		}
+		return r
+	}
+	return v
+}
 func vCanonS(v any) string {
 	var sb strings.Builder
 	vCanon(v, &sb)
@@ -481,7 +528,7 @@ func (g *vGen) matcherLeaf(kind string) *vLeaf {
 			pw, pv = g.ports(1, 4)
 		}
 		return &vLeaf{name: "socks4",
-			seg:      vBlock("socks4", nil, vCat(vLineIf("commands", cmds), vLineIf("networks", nw), vLineIf("ports", pw))),
+			seg:      vBlock("socks4", nil, vCat(vLineMulti("commands", cmds, 1), vLineMulti("networks", nw, 1), vLineMulti("ports", pw, 1))),
 			js:       jobj("commands", jstrs(cmds), "networks", jstrs(nj), "ports", jnums(pv)),
 			coq:      fmt.Sprintf("MSocks4 %s %s %s", cStrs(cmds), nc, cNs(pv)),
 			modelled: true}
@@ -495,7 +542,7 @@ func (g *vGen) matcherLeaf(kind string) *vLeaf {
 				aw, av = append(aw, strconv.FormatUint(v, 10)), append(av, v)
 			}
 		}
-		return &vLeaf{name: "socks5", seg: vBlock("socks5", nil, vLineIf("auth_methods", aw)),
+		return &vLeaf{name: "socks5", seg: vBlock("socks5", nil, vLineMulti("auth_methods", aw, 1)),
 			js: jobj("auth_methods", jnums(av)), coq: "MSocks5 " + cNs(av), modelled: true}
 	case "regexp":
 		pat := g.pick([]string{"^GET", "^[A-Z]+", "^SSH-2.0", "hello|world", "^.{4}ftyp", "a+b*c?", "^(foo|bar)baz$"})
@@ -673,7 +720,7 @@ func (g *vGen) matcherLeaf(kind string) *vLeaf {
 			if g.chance(70) || len(iw) == 0 {
 				pw, pv = g.ports(1, 3)
 			}
-			return &vLeaf{name: "rdp", seg: vBlock("rdp", nil, vCat(vLineIf("cookie_ip", iw), vLineIf("cookie_port", pw))),
+			return &vLeaf{name: "rdp", seg: vBlock("rdp", nil, vCat(vLineMulti("cookie_ip", iw, 1), vLineMulti("cookie_port", pw, 1))),
 				js:  jobj("cookie_ips", jstrs(ij), "cookie_ports", jnums(pv)),
 				coq: fmt.Sprintf("MRdp (RdpIPPort %s %s)", ic, cNs(pv)), modelled: true}
 		default:
@@ -795,7 +842,7 @@ func (g *vGen) upstream() (*vSeg, map[string]any, string) {
 		}
 	}
 	mc := g.optInt(40, []int64{0, 1, 5, 100, 2147483647})
-	ls := vCat(vLineIf("dial", dial), vLineOpt("max_connections", vIntStr(mc)))
+	ls := vCat(vLineMulti("dial", dial, 1), vLineOpt("max_connections", vIntStr(mc)))
 	var tlsj any
 	tlsc := "None"
 	if g.chance(40) {
@@ -820,7 +867,7 @@ func (g *vGen) upstream() (*vSeg, map[string]any, string) {
 		if g.chance(20) {
 			cauth = []string{"client.example.com"}
 		}
-		ls = vCat(ls, []*vSeg{vLine("tls")}, vLineIf("tls_client_auth", cauth), vLineIf("tls_curves", curves), vLineIf("tls_except_ports", except),
+		ls = vCat(ls, []*vSeg{vLine("tls")}, vLineIf("tls_client_auth", cauth), vLineMulti("tls_curves", curves, 1), vLineMulti("tls_except_ports", except, 1),
 			vLineFlag("tls_insecure_skip_verify", ins), vLineOpt("tls_renegotiation", re), vLineOpt("tls_server_name", sn),
 			vLineOpt("tls_timeout", vDurStr(to)))
 		ca := ""
@@ -849,7 +896,7 @@ func (g *vGen) handlerLeaf(kind string) *vLeaf {
 		}
 		to := g.optDur(60)
 		return &vLeaf{name: "proxy_protocol",
-			seg: vBlock("proxy_protocol", nil, vCat(vLineIf("allow", aw), vLineOpt("timeout", vDurStr(to)))),
+			seg: vBlock("proxy_protocol", nil, vCat(vLineMulti("allow", aw, 1), vLineOpt("timeout", vDurStr(to)))),
 			js:  jobj("timeout", vDurNs(to), "allow", jstrs(aj)),
 			coq: fmt.Sprintf("HProxyProtocol %s %s", ac, cOptDur(to)), modelled: true}
 	case "throttle":
@@ -909,7 +956,7 @@ func (g *vGen) handlerLeaf(kind string) *vLeaf {
 			}
 		}
 		return &vLeaf{name: "socks5",
-			seg: vBlock("socks5", nil, vCat(vLineOpt("bind_ip", bind), vLineIf("commands", cmds), vLineIf("credentials", cw))),
+			seg: vBlock("socks5", nil, vCat(vLineOpt("bind_ip", bind), vLineMulti("commands", cmds, 1), vLineMulti("credentials", cw, 2))),
 			js:  jobj("commands", jstrs(cmds), "bind_ip", jstr(bind), "credentials", creds),
 			coq: fmt.Sprintf("HSocks5 %s %s %s", cOptStr(bind), cStrs(cmds), cList(cc)), modelled: true}
 	case "proxy":
@@ -1031,7 +1078,7 @@ func (g *vGen) handlerLeaf(kind string) *vLeaf {
 			}
 			cps = append(cps, jobj("match", match, "alpn", jstrs(alpn), "protocol_min", pmin, "protocol_max", pmax, "default_sni", jstr(dsni)))
 			ls = append(ls, &vSeg{ws: []string{"connection_policy"}, hb: true,
-				body: vCat(vLineIf("alpn", alpn), vLineOpt("default_sni", dsni), mseg, vLineIf("protocols", protos))})
+				body: vCat(vLineMulti("alpn", alpn, 1), vLineOpt("default_sni", dsni), mseg, vLineIf("protocols", protos))})
 		}
 		return &vLeaf{name: "tls", seg: vBlock("tls", nil, ls), js: jobj("connection_policies", cps)}
 	}
@@ -1837,6 +1884,11 @@ func TestVerifC15(t *testing.T) {
 	for i := 0; i < n; i++ {
 		lw := i%4 == 3
 		g.full = i%3 == 2
+		g.big = !lw && i%10 == 5
+		vSplit, vSplits = nil, 0
+		if i%5 == 1 {
+			vSplit = g.r
+		}
 		depth := 1 + g.r.Intn(3)
 		var text, coq, cls string
 		var want any
@@ -1902,6 +1954,11 @@ func TestVerifC15(t *testing.T) {
 			cls = "global"
 		}
 		counts[cls]++
+		if vSplits > 0 {
+			canonical = false
+			counts["with-repeated-options"]++
+		}
+		vSplit = nil
 		res := vAdapt(text)
 		if res.adaptErr != nil {
 			out.Fail("C15:adapt:error-on-valid-config", res.adaptErr.Error(), text)
@@ -1912,7 +1969,12 @@ func TestVerifC15(t *testing.T) {
 			obs = vLayer4Wrappers(res.parsed)
 		}
 		if vCanonS(want) != vCanonS(obs) {
-			out.Fail("C15:adapt:json-differs-from-config", "stated "+vCanonS(want)+" adapted "+vCanonS(obs), text)
+			key := "C15:adapt:json-differs-from-config"
+			if vCanonS(vFloatRound(want)) == vCanonS(vFloatRound(obs)) {
+				// the only difference: integers above 2^53 came back rounded to the nearest float64
+				key = "C15:adapt:integer-above-2^53-rounded"
+			}
+			out.Fail(key, "stated "+vCanonS(want)+" adapted "+vCanonS(obs), text)
 		}
 		after("generated", text, res, true)
 		nt := named >= 1 && nested >= 1
